@@ -11,6 +11,8 @@ from .. import treecheck
 from ..treeprop import DROP_ASC, DROP_DESC, GC_DROP, HOLD_ASC, HOLD_DESC, TreeProp
 
 QUICK = [
+    ("S4", DROP_ASC, 2, "DELCORE"),
+    ("S7", DROP_ASC, 1, "DELCORE"),
     ("S1", DROP_ASC, 2, "FULL"),
     ("S2", HOLD_DESC, 1, "FULL"),
     ("S2r", DROP_ASC, 1, "FULL"),
@@ -19,6 +21,8 @@ QUICK = [
     ("S1r", DROP_ASC, 2, "STRUCT"),
 ]
 THOROUGH = [
+    ("S4", DROP_ASC, 2, "DELCORE"),
+    ("S7", DROP_ASC, 2, "DELCORE"),
     ("S1", DROP_ASC, 3, "FULL"),
     ("S2", HOLD_DESC, 2, "FULL"),
     ("S2", DROP_DESC, 2, "FULL"),
